@@ -196,6 +196,11 @@ def all_objects(model):
 
 
 def one(ctx, i, rep=None):
+    with ctx.time_limit(30):
+        _one(ctx, i, rep)
+
+
+def _one(ctx, i, rep=None):
     from textx import metamodel_from_str, TextXError, textx_isinstance
     rep = rep or {'i': i}
     r = ctx.rng('g', i)
